@@ -108,7 +108,8 @@ namespace vu
    using r_action = I::action< nothing, P1 >;
    using r_action2 = I::action< nothing, P1, P2 >;
    // a second control, so that "switched to the new control" and "still the old one" are different things
-   // (with a match of its own, declared only: entering a rule through this control is then a different function from entering it through normal)
+   // (with a match of its own, declared only: entering a rule through this control is then a different function from entering it through normal; UC() below
+   // instantiates the combinators with it as their control, so that a combinator which hands its operand to the wrong control is visible)
    template< typename R > struct other_ctl : normal< R >
    {
       template< apply_mode A, rewind_mode M, template< typename... > class Action, template< typename... > class Control, typename ParseInput, typename... States >
@@ -277,8 +278,20 @@ namespace vu
       return r;
    }
 
+   // Rule::match called directly with other_ctl as the control of the run, all four modes
+   template< typename R, typename Input, typename... Args >
+   bool directc4( Input& in, Args&&... args )
+   {
+      bool r = R::template match< apply_mode::action, rewind_mode::required, nothing, other_ctl >( in, args... );
+      r = R::template match< apply_mode::action, rewind_mode::optional, nothing, other_ctl >( in, args... ) && r;
+      r = R::template match< apply_mode::nothing, rewind_mode::required, nothing, other_ctl >( in, args... ) && r;
+      r = R::template match< apply_mode::nothing, rewind_mode::optional, nothing, other_ctl >( in, args... ) && r;
+      return r;
+   }
+
 #define U4( R ) r = use4< R >( in ) && r;
 #define U4S( R ) r = use4< R >( in, st ) && r;
+#define UC( R ) r = directc4< R >( in ) && r;
 
    inline bool all_rules( In& in, St& st, InBuf& bin, InDepth& din )
    {
@@ -289,10 +302,12 @@ namespace vu
       U4( r_part1 ) U4( r_part2 ) U4( r_part3 ) U4( r_at1 ) U4( r_at2 ) U4( r_not_at1 ) U4( r_not_at2 )
       U4( r_until1 ) U4( r_until2 ) U4( r_until3 )
       U4( r_rep0 ) U4( r_rep1 ) U4( r_rep3 ) U4( r_rep2_2 )
+      UC( r_seq2 ) UC( r_sor2 ) UC( r_star1 ) UC( r_plus1 ) UC( r_opt1 ) UC( r_at1 ) UC( r_at2 ) UC( r_not_at1 ) UC( r_not_at2 ) UC( r_until2 ) UC( r_rep3 )
 #endif
 #if VU_PART == 2
       U4( r_rmm00 ) U4( r_rmm02 ) U4( r_rmm13 ) U4( r_rmm22 ) U4( r_rmm24_2 )
       U4( r_rmin0 ) U4( r_rmin2 ) U4( r_rmin2_2 ) U4( r_ropt0 ) U4( r_ropt2 ) U4( r_ropt3_2 )
+      UC( r_ite ) UC( r_rmm13 ) UC( r_rmin2 ) UC( r_ropt2 ) UC( r_strict2 )
       U4( r_ite ) U4( r_strict1 ) U4( r_strict2 ) U4( r_strict3 ) U4( r_sstrict1 ) U4( r_sstrict2 )
       U4( r_rematch1 ) U4( r_rematch2 ) U4( r_rematch3 )
       U4( r_tcrf ) U4( r_tcrf2 ) U4( r_tcrfv ) U4( r_tcrfv2 ) U4( r_tcrn ) U4( r_tcrn2 ) U4( r_tcrnv ) U4( r_tcrnv2 )
@@ -301,6 +316,8 @@ namespace vu
       U4( r_must1 ) U4( r_must2 ) U4( r_ifmust_f ) U4( r_ifmust_f3 ) U4( r_ifmust_t ) U4( r_ifmust_t3 ) U4( r_ifmustelse )
       U4( r_raise ) U4( r_starmust ) U4( r_list ) U4( r_listmust ) U4( r_listtail ) U4( r_listtailpad )
       U4( r_minus ) U4( r_pad ) U4( r_padopt )
+      // (not the must family: that a must<> never returns false is a fact about must::match, which an opaque control's match hides)
+      UC( r_minus ) UC( r_enable ) UC( r_disable ) UC( r_action ) UC( r_state ) UC( r_tcrf ) UC( r_rematch2 )
       U4( r_state ) U4( r_state2 ) U4S( r_state ) U4( r_state_d ) U4S( r_state_d ) U4( r_action ) U4( r_action2 ) U4( r_control ) U4( r_control2 ) U4( r_control3 ) U4( r_control4 )
       U4( r_enable ) U4( r_enable2 ) U4( r_disable ) U4( r_disable2 )
       U4( r_ifthen ) U4( r_ifthen2 ) U4( r_ifthen3 ) U4( r_sepseq )
